@@ -22,8 +22,7 @@
    lxml (serialisation and parsing of the infoset) is assumed (A-lxml).
    Those parts rest on the correspondence and the oracle of harness/props/c08.py. *)
 From Coq Require Import ZArith List Bool.
-From PyecoreV Require Import Lib.PyBase Lib.PyList Model.OSet Model.XmiAttr Model.RefLoad
-     Proofs.OSetProofs Proofs.XmiAttrProofs Proofs.RefLoadProofs.
+From PyecoreV Require Import Lib.PyBase Lib.PyList Model.OSet Model.XmiAttr Model.RefLoad Proofs.OSetProofs Proofs.XmiAttrProofs Proofs.RefLoadProofs.
 Import ListNotations.
 Open Scope Z_scope.
 
